@@ -88,3 +88,48 @@ func VerifC09DecodeState(v *verifrt.T) {
 }
 
 func c09esMarshal(val interface{}) ([]byte, error) { return []byte{}, nil }
+
+// binary.Unmarshal into a *Connection: the struct codec over WillFlag, WillRetain (one byte
+// each), WillQoS (varuint) and four byte slices (byteSliceCodec: declared length, allocation,
+// then the bytes), transcribed from codecs.go v1.0.19 over the real Decoder.
+func c09esUnmarshalConn(b []byte, out interface{}) error {
+	d := binary.NewDecoder(bytes.NewBuffer(b))
+	e := out.(*Connection)
+	var err error
+	if e.WillFlag, err = d.ReadBool(); err != nil {
+		return err
+	}
+	if e.WillRetain, err = d.ReadBool(); err != nil {
+		return err
+	}
+	q, err := d.ReadUvarint()
+	if err != nil {
+		return err
+	}
+	e.WillQoS = uint8(q)
+	for _, f := range []*[]byte{&e.WillTopic, &e.WillMessage, &e.ClientID, &e.Username} {
+		var l uint64
+		if l, err = d.ReadUvarint(); err == nil && l > 0 {
+			data := make([]byte, int(l), int(l))
+			if _, err = d.Read(data); err == nil {
+				*f = data
+			}
+		}
+		if err != nil {
+			return err
+		}
+	}
+	return nil
+}
+
+// VerifC09ConnValue: the value of a replicated connection entry (last-will data) is bytes
+// from the cluster port; it is decoded when the peer it belongs to is garbage-collected and
+// this broker is its fallback. Arbitrary value bytes must not panic or allocate for a
+// declared length.
+func VerifC09ConnValue(v *verifrt.T) {
+	val := v.Bytes(v.Choice(v.Bound("connvalue")+1, "n"), "c")
+	key := string(make([]byte, 16))
+	panicked := v.Try(func() { decodeConnection(key, val) })
+	v.Reach("connection-decoded")
+	v.Assert(!panicked, "C09.connection-value.no-panic")
+}
